@@ -373,6 +373,62 @@ async fn lx_part(rep: &mut Report, thorough: bool) -> Result<(), String> {
             }
         }
     }
+    // ---- non-CONNECT requests with bodies of every interesting size arriving in many writes, against an ECHOING origin:
+    //      the origin receives the body exactly, and everything the origin sends back reaches the client exactly
+    {
+        let origin = start_target("127.0.0.1", TargetMode::Echo, vec![]).await;
+        for (ci, n) in (if thorough { vec![0usize, 1, 1023, 1024, 1025, 8191, 8192, 8193, 65535, 65536, 65537, 300_000, 1_000_000] } else { vec![0usize, 1, 1024, 8192, 8193, 65536, 300_000] }).into_iter().enumerate() {
+            let name = format!("POST with a {n}-byte body in 1000-byte writes to an echoing origin");
+            rep.case(Some(&name));
+            let head = format!("POST http://{}/b HTTP/1.1\r\nHost: {}\r\nContent-Length: {n}\r\n\r\n", origin.addr, origin.addr);
+            let body = pat_vec(90 + ci as u8, 0, 0, n);
+            let Ok(mut s) = tokio::net::TcpStream::connect(proxy).await else { continue };
+            let _ = s.set_nodelay(true);
+            let (mut rd, mut wr) = s.split();
+            let idx = origin.accepted();
+            let writer = async {
+                let _ = wr.write_all(head.as_bytes()).await;
+                for ch in body.chunks(1000) {
+                    let _ = wr.write_all(ch).await;
+                }
+                let _ = wr.flush().await;
+            };
+            let reader = async {
+                let mut got: Vec<u8> = vec![];
+                let mut buf = vec![0u8; 65536];
+                loop {
+                    let done = got.windows(4).position(|w| w == b"\r\n\r\n").map(|p| got.len() - (p + 4) >= n).unwrap_or(false);
+                    if done {
+                        break;
+                    }
+                    match tokio::time::timeout(Duration::from_secs(5), rd.read(&mut buf)).await {
+                        Ok(Ok(k)) if k > 0 => got.extend_from_slice(&buf[..k]),
+                        _ => break,
+                    }
+                }
+                got
+            };
+            let (_, echoed) = tokio::join!(writer, reader);
+            let at_origin = origin.wait(idx, 3000, |t| t.received.windows(4).position(|w| w == b"\r\n\r\n").map(|p| t.received.len() - (p + 4) >= n).unwrap_or(false)).await.map(|t| t.received).unwrap_or_default();
+            let split = |v: &[u8]| -> Option<(Vec<u8>, Vec<u8>)> { v.windows(4).position(|w| w == b"\r\n\r\n").map(|p| (v[..p + 4].to_vec(), v[p + 4..].to_vec())) };
+            match split(&at_origin) {
+                None => rep.violation("C17:forwarded-request-altered", &format!("{name}: the origin received {} bytes without a header terminator", at_origin.len()), json!({"engine": "LX", "case": name})),
+                Some((h, b)) => {
+                    if b != body {
+                        let first_bad = b.iter().zip(body.iter()).position(|(x, y)| x != y).unwrap_or(b.len().min(body.len()));
+                        rep.violation("C17:body-bytes-not-forwarded-exactly-once", &format!("{name}: the origin received {} body bytes, first difference at offset {first_bad}", b.len()), json!({"engine": "LX", "case": name}));
+                    }
+                    if !h.starts_with(b"POST /b HTTP/1.1\r\n") {
+                        rep.violation("C17:forwarded-request-altered", &format!("{name}: forwarded header starts {:?}", String::from_utf8_lossy(&h[..h.len().min(40)])), json!({"engine": "LX", "case": name}));
+                    }
+                    if echoed != at_origin {
+                        let first_bad = echoed.iter().zip(at_origin.iter()).position(|(x, y)| x != y).unwrap_or(echoed.len().min(at_origin.len()));
+                        rep.violation("C17:response-bytes-altered", &format!("{name}: the origin sent back {} bytes, the client received {}, first difference at offset {first_bad}", at_origin.len(), echoed.len()), json!({"engine": "LX", "case": name}));
+                    }
+                }
+            }
+        }
+    }
     // CONNECT that cannot succeed (refusing port, unresolvable name) x {no early bytes, early bytes in the same segment,
     // early bytes in a later segment}: never a 200, and the early bytes go nowhere
     {
@@ -503,5 +559,5 @@ pub fn run(tier: Tier) -> i32 {
     if let Err(e) = tokio::runtime::Builder::new_current_thread().enable_all().build().unwrap().block_on(lx_gaps(&mut rep, thorough)) {
         rep.machinery(format!("LX (gaps): {e}"));
     }
-    rep.finish("IX on the real parse/rewrite functions vs an independent reference: {GET,POST,PUT,OPTIONS,CONNECT} x target forms {origin, '*', absolute http/https with and without path, authority} x 5 host spellings (names, IPv4, bracketed IPv6) x ports {none,80,443,8080,65535} x Host header {absent, 4 case spellings with/without space, differing from the URI} at every position among 0-2 other headers (duplicates, a name starting with 'host') x versions x body prefixes; LX: header blocks of 65000/65536/65537 bytes with body bytes in the same or a later segment, CONNECT ordering and early bytes, refusing target, origin-form requests per Host spelling, requests arriving in two pieces with 31 / 301 s of silence between them; non-trivial = distinct case")
+    rep.finish("IX on the real parse/rewrite functions vs an independent reference: {GET,POST,PUT,OPTIONS,CONNECT} x target forms {origin, '*', absolute http/https with and without path, authority} x 5 host spellings (names, IPv4, bracketed IPv6) x ports {none,80,443,8080,65535} x Host header {absent, 4 case spellings with/without space, differing from the URI} at every position among 0-2 other headers (duplicates, a name starting with 'host') x versions x body prefixes; LX: header blocks of 65000/65536/65537 bytes with body bytes in the same or a later segment, CONNECT ordering and early bytes, refusing target, origin-form requests per Host spelling, requests arriving in two pieces with 31 / 301 s of silence between them, bodies of 0..300 000 (1 000 000) bytes in many writes to an echoing origin (body at the origin and response at the client byte-identical); non-trivial = distinct case")
 }
